@@ -146,8 +146,11 @@ def discharge(ob: Obligation, collect_functions=True):
     funcs, prof = _profile_functions(ob)
     first = [True]
 
+    holder = {}
+
     def one():
         ctx = Ctx("sym", params=ob.params)
+        holder["ctx"] = ctx
         if first[0] and collect_functions:
             first[0] = False
             sys.setprofile(prof)
@@ -166,6 +169,38 @@ def discharge(ob: Obligation, collect_functions=True):
                 res["aborted"] += 1
                 if len(res["inconclusive"]) < 20:
                     res["inconclusive"].append("%s: %s" % (status, out))
+                # the symbolic run could not follow this path; its float64 run still can: inputs declared so far take the values of
+                # the path model, later ones 0 (a run that leaves the assumed domain is skipped)
+                pctx = holder.get("ctx")
+                if pctx is not None and res.get("fallback_runs", 0) < 8:
+                    try:
+                        m = E.get_model()
+                        vals = _model_values(m, pctx)
+                    except BaseException:
+                        vals = None
+                    if vals is not None:
+                        res["fallback_runs"] = res.get("fallback_runs", 0) + 1
+                        saved = Engine.cur
+                        Engine.cur = None
+                        try:
+                            cctx = Ctx("conc", values=vals, params=ob.params)
+                            cctx.missing_as_zero = True
+                            try:
+                                run_path(ob, cctx)
+                            except BaseException:
+                                cctx = None
+                        finally:
+                            Engine.cur = saved
+                            tokens.reset()
+                        if cctx is not None:
+                            full = dict(vals)
+                            for n, _k in cctx.inputs:
+                                full.setdefault(n, "0")
+                            for n, c in cctx.facets:
+                                if c is not True:
+                                    lst = cand_per_facet.setdefault(n, [])
+                                    if len(lst) < 3:
+                                        lst.append(dict(facet=n, model=full, origin="float64 run of a path the symbolic run could not follow", notes=[x for x in cctx.notes if x.startswith(n)][:1]))
                 continue
             ctx = out
             res["paths"] += 1
